@@ -548,7 +548,7 @@ def gen_history(rng, nops, mode):
 
 
 # -- TLC as evaluator -------------------------------------------------------------------
-def evaluate(wd, hists, tag, timeout=900):
+def evaluate(wd, hists, tag, timeout=900, jvm=None):
     """Expected outcomes of every operation of every history, computed by TLC
     from SiteRoutingEval.tla."""
     if not hists:
@@ -558,7 +558,7 @@ def evaluate(wd, hists, tag, timeout=900):
     tlc.dump_json(inp, [hist_to_tla_json(h) for h in hists])
     cfg = "SiteRoutingEval_%s.cfg" % tag
     wd.write(cfg, EVAL_CFG % EVAL_CONSTS)
-    r = tlc.run(wd, "SiteRoutingEval.tla", cfg, workers=1, timeout=timeout, env={"C17_HIST": inp, "C17_OUT": outp})
+    r = tlc.run(wd, "SiteRoutingEval.tla", cfg, workers=1, timeout=timeout, env=dict(jvm or {}, C17_HIST=inp, C17_OUT=outp))
     tlc.need_ok_run(r, "SiteRoutingEval")
     done = tlc.printed_values(r, "C17EVAL")
     if not done or done[0][1] != len(hists) or not os.path.exists(outp):
@@ -631,9 +631,12 @@ def work(rep, args):
     )
     mc2_consts = None if quick else dict(subsites='{"S1", "S2"}', leaves='{"L1", "L2"}', resids='{"r1", "r2", "r3", "r4"}', segs="Segs3", reglen=2, reqlen=3, entries=2, queries="FALSE")
     sim_consts = dict(subsites='{"S1", "S2"}', leaves='{"L1", "L2"}', resids='{"r1", "r2", "r3", "r4"}', segs="Segs3", reglen=2, reqlen=3, entries=6, queries="TRUE")
-    nsim, simdepth = (80, 40) if quick else (1200, 60)
-    nrand, randlen = (200, 60) if quick else (4000, 80)
-    nchunks = 3 if quick else 6
+    nsim, simdepth = (64, 40) if quick else (1200, 60)
+    nrand, randlen = (160, 60) if quick else (3000, 80)
+    nchunks = 2 if quick else 8
+    # short TLC jobs spend most of their CPU in JIT compilation and GC threads
+    jvm_short = {"JAVA_TOOL_OPTIONS": "-XX:ParallelGCThreads=2 -XX:TieredStopAtLevel=1 -Xss16m"}
+    jvm_mc = {"JAVA_TOOL_OPTIONS": "-XX:ParallelGCThreads=4 -XX:TieredStopAtLevel=1"} if quick else None
 
     hists = [gen_history(rng, randlen, "ctx" if i % 2 == 0 else "direct") for i in range(nrand)]
 
@@ -642,26 +645,35 @@ def work(rep, args):
         if mc2_consts:
             wd.write("SiteRouting_mc2.cfg", MC_CFG % mc2_consts)
         wd.write("SiteRouting_sim.cfg", SIM_CFG % sim_consts)
-        simdir = wd.file("sim")
-        os.makedirs(simdir)
-        # the three TLC jobs are independent: run them side by side
-        with ThreadPoolExecutor(12) as ex:
-            f_mc = ex.submit(tlc.run, wd, "SiteRouting.tla", "SiteRouting_mc.cfg", workers=8 if quick else 12, timeout=600 if quick else 3000, coverage=False)
+        nsimjobs = 2 if quick else 8
+        simdirs = []
+        for j in range(nsimjobs):
+            d = wd.file("sim%d" % j)
+            os.makedirs(d)
+            simdirs.append(d)
+        per_job = (nsim + nsimjobs - 1) // nsimjobs
+        # the TLC jobs are independent: run them side by side
+        with ThreadPoolExecutor(24) as ex:
+            f_mc = ex.submit(tlc.run, wd, "SiteRouting.tla", "SiteRouting_mc.cfg", workers=6 if quick else 12, timeout=600 if quick else 3000, coverage=False, env=jvm_mc)
             f_mc2 = ex.submit(tlc.run, wd, "SiteRouting.tla", "SiteRouting_mc2.cfg", workers=4, timeout=3000) if mc2_consts else None
-            f_sim = ex.submit(
-                tlc.run,
-                wd,
-                "SiteRouting.tla",
-                "SiteRouting_sim.cfg",
-                workers=1,
-                timeout=600 if quick else 3000,
-                simulate="file=%s/tr,num=%d" % (simdir, nsim),
-                depth=simdepth,
-                seed=seed + 1,
-            )
+            f_sims = [
+                ex.submit(
+                    tlc.run,
+                    wd,
+                    "SiteRouting.tla",
+                    "SiteRouting_sim.cfg",
+                    workers=1,
+                    timeout=600 if quick else 3000,
+                    simulate="file=%s/tr,num=%d" % (d, per_job),
+                    depth=simdepth,
+                    seed=seed * 100 + 1 + j,
+                    env=jvm_short,
+                )
+                for j, d in enumerate(simdirs)
+            ]
             chunks = [hists[i::nchunks] for i in range(nchunks)]
-            f_eval = [ex.submit(evaluate, wd, ch, "rand%d" % i, 600 if quick else 3000) for i, ch in enumerate(chunks)]
-            mc, sim = f_mc.result(), f_sim.result()
+            f_eval = [ex.submit(evaluate, wd, ch, "rand%d" % i, 600 if quick else 3000, jvm_short) for i, ch in enumerate(chunks)]
+            mc, sims = f_mc.result(), [f.result() for f in f_sims]
             mc2 = f_mc2.result() if f_mc2 else None
             exps = [None] * len(hists)
             eval_wall = 0.0
@@ -672,13 +684,14 @@ def work(rep, args):
         tlc.need_ok_run(mc, "SiteRouting model check")
         if mc2 is not None:
             tlc.need_ok_run(mc2, "SiteRouting model check (second configuration)")
-        tlc.need_ok_run(sim, "SiteRouting simulation")
-        for r, what in ((mc, "model check"), (mc2, "second model check"), (sim, "simulation")):
+        for sim in sims:
+            tlc.need_ok_run(sim, "SiteRouting simulation")
+        for r, what in [(mc, "model check"), (mc2, "second model check")] + [(x, "simulation") for x in sims]:
             if r is not None and r.violated:
                 # the reference operators contradict their own restatement: the
                 # specification is wrong, not the code
                 raise MachineryError("SiteRouting %s: %s violated\n%s" % (what, r.violated, r.out[-3000:]))
-        world = tlc.printed_values(sim, "C17WORLD")
+        world = tlc.printed_values(sims[0], "C17WORLD")
         if not world:
             raise MachineryError("simulation run did not print the model's world")
         mw = world[0][1]
@@ -688,11 +701,11 @@ def work(rep, args):
             "leaves": sorted(mw["leaves"]),
             "attrs": {r: {"hidden": bool(a["hidden"]), "pairs": [list(p) for p in a["pairs"]]} for r, a in mw["attrs"].items()},
         }
-        files = sorted(f for f in os.listdir(simdir) if f.startswith("tr_"))
+        files = sorted(os.path.join(d, f) for d in simdirs for f in os.listdir(d) if f.startswith("tr_"))
         if len(files) < nsim:
             raise MachineryError("simulation produced %d behaviours, expected %d" % (len(files), nsim))
         items = [
-            {"src": "model-behaviour", "mode": "ctx", "W": MW, "file": os.path.join(simdir, f), "want_sample": i == 0}
+            {"src": "model-behaviour", "mode": "ctx", "W": MW, "file": f, "want_sample": i == 0}
             for i, f in enumerate(files)
         ]
         items += [
@@ -747,7 +760,7 @@ def work(rep, args):
             "distinct_nontrivial": stats.get("total.expect_prefix", 0) + stats.get("total.filters_selecting_proper_subset", 0),
             "failed_comparisons_per_clause": per_clause,
             "event_loop_exceptions": loop_exc,
-            "tlc_wall_s": {"mc": round(mc.wall, 1), "sim": round(sim.wall, 1), "eval": round(eval_wall, 1)},
+            "tlc_wall_s": {"mc": round(mc.wall, 1), "sim": round(max(x.wall for x in sims), 1), "eval": round(eval_wall, 1)},
             "replay_wall_s": round(t_replay, 1),
             "samples": samples,
             "checker_cmd": "tlc SiteRouting.tla (exhaustive, VIEW st) ; tlc -simulate SiteRouting.tla ; tlc SiteRoutingEval.tla (evaluator over JSON histories)",
